@@ -190,13 +190,17 @@ type c20WitState struct {
 	WCP   string `json:"wcp"`   // ok missing truncated unlisted wrongdir
 	MJSON string `json:"mjson"` // ok missing garbled emptykeys invalidkey otherkey
 	MCP   string `json:"mcp"`   // ok missing truncated unlisted wrongdir ahead
-	Tiles string `json:"tiles"` // ok edge0-missing edge0-corrupt edge1-missing edge1-corrupt
+	Tiles string `json:"tiles"` // ok edge0-missing edge0-corrupt edge0-truncated edge1-missing edge1-corrupt
+	// Size is the mirror checkpoint size (0 = 300): 1, 2, 256, 512 are single
+	// perfect subtrees, 300 is not. The pending checkpoint is 5 entries larger,
+	// an "ahead" mirror checkpoint 10 entries larger.
+	Size int64 `json:"size,omitempty"`
 }
 
 var c20WitBase = c20WitState{WJSON: "ok", WCP: "ok", MJSON: "ok", MCP: "ok", Tiles: "ok"}
 
 func (s c20WitState) label() string {
-	return fmt.Sprintf("wjson=%s,wcp=%s,mjson=%s,mcp=%s,tiles=%s", s.WJSON, s.WCP, s.MJSON, s.MCP, s.Tiles)
+	return fmt.Sprintf("wjson=%s,wcp=%s,mjson=%s,mcp=%s,tiles=%s,size=%d", s.WJSON, s.WCP, s.MJSON, s.MCP, s.Tiles, s.size())
 }
 
 // Independent predicates: a witness entry is healthy iff its key file publishes
@@ -241,21 +245,83 @@ type c20WitSlot struct {
 	cur               *c20WitState
 }
 
-const (
-	c20MirrorN  = 300
-	c20PendingN = 305
-	c20AheadN   = 310
-)
+const c20MaxN = 512 + 10
+
+var c20Sizes = []int64{300, 1, 2, 256, 512}
+
+func (s c20WitState) size() int64 {
+	if s.Size == 0 {
+		return 300
+	}
+	return s.Size
+}
+func (s c20WitState) pendingN() int64 { return s.size() + 5 }
+func (s c20WitState) mirrorN() int64 {
+	if s.MCP == "ahead" {
+		return s.size() + 10
+	}
+	return s.size()
+}
+
+// c20RightEdgeTiles lists, lowest level first, the tiles that hold the roots of
+// the perfect subtrees a tree of n leaves decomposes into (its right edge): the
+// root of the subtree of 2^k leaves starting at leaf off lives in the tile of
+// level k/8 that covers entries (off>>8L) .. of that level, which is the
+// right-most (full or partial) tile of the level.
+func c20RightEdgeTiles(n int64) []verifmc.TileCoord {
+	seen := map[string]bool{}
+	var out []verifmc.TileCoord
+	off := int64(0)
+	for k := 62; k >= 0; k-- {
+		if n&(1<<uint(k)) == 0 {
+			continue
+		}
+		L := k / 8
+		first := off >> (8 * uint(L))                   // first level-8L entry under the subtree root
+		last := (off+(1<<uint(k)))>>(8*uint(L)) - 1      // last one
+		cnt := n >> (8 * uint(L))                       // entries of that level in the whole tree
+		for tn := first / verifmc.TileW; tn <= last/verifmc.TileW; tn++ {
+			w := int64(verifmc.TileW)
+			if (tn+1)*verifmc.TileW > cnt {
+				w = cnt - tn*verifmc.TileW
+			}
+			tc := verifmc.TileCoord{Kind: "hash", L: L, N: tn, W: int(w)}
+			if !seen[tc.Path()] {
+				seen[tc.Path()] = true
+				out = append(out, tc)
+			}
+		}
+		off += 1 << uint(k)
+	}
+	// lowest level first
+	for i := 0; i < len(out); i++ {
+		for j := i + 1; j < len(out); j++ {
+			if out[j].L < out[i].L {
+				out[i], out[j] = out[j], out[i]
+			}
+		}
+	}
+	return out
+}
 
 func c20NewWitSlot(dir, name, origin string, staging bool) *c20WitSlot {
 	sl := &c20WitSlot{Dir: dir, Name: name, Origin: origin, Staging: staging, Hash: c19OriginHash(origin), WrongHash: c19OriginHash("elsewhere." + origin),
 		W: c19NewCosigner(name, "c20 w "+name), M: c19NewCosigner("mirror."+name, "c20 m "+name), Rogue: c19NewCosigner("rogue."+name, "c20 rogue "+name),
-		Log: c19NewMirrorLog(origin, c20AheadN), roots: map[int64]verifmc.Hash{}, tiles: map[string][]byte{}}
-	for _, n := range []int64{c20MirrorN, c20PendingN, c20AheadN} {
+		Log: c19NewMirrorLog(origin, c20MaxN), roots: map[int64]verifmc.Hash{}, tiles: map[string][]byte{}}
+{
 		sl.roots[n] = verifmc.MTH(sl.Log.Leaves[:n])
 	}
 	c19Check(os.MkdirAll(filepath.Join(dir, "mirror"), 0o755))
 	return sl
+}
+
+func (sl *c20WitSlot) root(n int64) verifmc.Hash {
+	if r, ok := sl.roots[n]; ok {
+		return r
+	}
+	r := verifmc.MTH(sl.Log.Leaves[:n])
+	sl.roots[n] = r
+	return r
 }
 
 func c20ClearDir(dir string, keep string) {
@@ -300,10 +366,10 @@ func (sl *c20WitSlot) apply(s c20WitState) {
 		os.Remove(filepath.Join(sl.Dir, "mirror", "mirror.v0.json"))
 		c20KeyFile(filepath.Join(sl.Dir, "mirror", "mirror.v0.json"), s.MJSON, "mirror."+sl.Name, sl.M, sl.Rogue)
 	}
-	if first || prev.WCP != s.WCP {
+	if first || prev.WCP != s.WCP || prev.size() != s.size() {
 		sl.applyWitnessCP(s)
 	}
-	if first || prev.MCP != s.MCP || prev.Tiles != s.Tiles {
+	if first || prev.MCP != s.MCP || prev.Tiles != s.Tiles || prev.size() != s.size() {
 		sl.applyMirror(s)
 	}
 	st := s
@@ -323,7 +389,7 @@ func (sl *c20WitSlot) applyWitnessCP(s c20WitState) {
 	if s.WCP == "unlisted" {
 		wsigner = sl.Rogue
 	}
-	wnote := c19SignNote(c19CheckpointText(sl.Origin, c20PendingN, sl.roots[c20PendingN]), wsigner.S)
+	wnote := c19SignNote(c19CheckpointText(sl.Origin, s.pendingN(), sl.root(s.pendingN())), wsigner.S)
 	switch s.WCP {
 	case "missing":
 	case "truncated":
@@ -336,10 +402,7 @@ func (sl *c20WitSlot) applyWitnessCP(s c20WitState) {
 func (sl *c20WitSlot) applyMirror(s c20WitState) {
 	c19Check(os.RemoveAll(filepath.Join(sl.Dir, "mirror", sl.Hash)))
 	c19Check(os.RemoveAll(filepath.Join(sl.Dir, "mirror", sl.WrongHash)))
-	n := int64(c20MirrorN)
-	if s.MCP == "ahead" {
-		n = c20AheadN
-	}
+	n := s.mirrorN()
 	mdir := filepath.Join(sl.Dir, "mirror", sl.Hash)
 	if s.MCP == "wrongdir" {
 		mdir = filepath.Join(sl.Dir, "mirror", sl.WrongHash)
@@ -357,7 +420,7 @@ func (sl *c20WitSlot) applyMirror(s c20WitState) {
 	if s.MCP == "unlisted" {
 		msigner = sl.Rogue
 	}
-	mnote := c19SignNote(c19CheckpointText(sl.Origin, n, sl.roots[n]), msigner.S)
+	mnote := c19SignNote(c19CheckpointText(sl.Origin, n, sl.root(n)), msigner.S)
 	switch s.MCP {
 	case "missing":
 	case "truncated":
@@ -365,8 +428,11 @@ func (sl *c20WitSlot) applyMirror(s c20WitState) {
 	default:
 		c19Write(filepath.Join(mdir, "checkpoint"), mnote)
 	}
-	edge0 := filepath.Join(mdir, fmt.Sprintf("tile/0/001.p/%d", n-256))
-	edge1 := filepath.Join(mdir, "tile/1/000.p/1")
+	// edge0 / edge1: the lowest- and the highest-level right-edge tile (the same
+	// tile when the tree is a single perfect subtree).
+	edges := c20RightEdgeTiles(n)
+	edge0 := filepath.Join(mdir, c19MirrorTilePath(edges[0]))
+	edge1 := filepath.Join(mdir, c19MirrorTilePath(edges[len(edges)-1]))
 	corrupt := func(p string) {
 		b, err := os.ReadFile(p)
 		c19Check(err)
@@ -379,6 +445,10 @@ func (sl *c20WitSlot) applyMirror(s c20WitState) {
 		c19Check(os.Remove(edge0))
 	case "edge0-corrupt":
 		corrupt(edge0)
+	case "edge0-truncated":
+		b, err := os.ReadFile(edge0)
+		c19Check(err)
+		c19Write(edge0, b[:len(b)/2])
 	case "edge1-missing":
 		c19Check(os.Remove(edge1))
 	case "edge1-corrupt":
@@ -405,7 +475,7 @@ var (
 	c20WJSONs = []string{"ok", "missing", "garbled", "emptykeys", "invalidkey", "otherkey"}
 	c20WCPs   = []string{"ok", "missing", "truncated", "unlisted", "wrongdir"}
 	c20MCPs   = []string{"ok", "missing", "truncated", "unlisted", "wrongdir", "ahead"}
-	c20Tiles  = []string{"ok", "edge0-missing", "edge0-corrupt", "edge1-missing", "edge1-corrupt"}
+	c20Tiles  = []string{"ok", "edge0-missing", "edge0-corrupt", "edge0-truncated", "edge1-missing", "edge1-corrupt"}
 )
 
 // c20LogDeviations lists the states that differ from the baseline in exactly k
@@ -483,6 +553,27 @@ func c20WitDeviations(k int) []c20WitState {
 	return out
 }
 
+// c20SizeStates: mirror checkpoint sizes that are single perfect subtrees (and
+// their neighbours in the enumeration) against the right-edge tile conditions;
+// full = additionally against every mirror/witness checkpoint condition.
+func c20SizeStates(full bool) []c20WitState {
+	var out []c20WitState
+	for _, n := range c20Sizes[1:] {
+		for _, ti := range c20Tiles {
+			mcps, wcps := []string{"ok"}, []string{"ok"}
+			if full {
+				mcps, wcps = c20MCPs, c20WCPs
+			}
+			for _, mc := range mcps {
+				for _, wc := range wcps {
+					out = append(out, c20WitState{WJSON: "ok", WCP: wc, MJSON: "ok", MCP: mc, Tiles: ti, Size: n})
+				}
+			}
+		}
+	}
+	return out
+}
+
 type c20BinState struct {
 	LogN c20LogState `json:"log_n"`
 	LogS c20LogState `json:"log_s"`
@@ -529,6 +620,11 @@ func c20BinStates(thorough bool) []c20BinState {
 		for _, s := range w1 {
 			a, b := base, base
 			a.WitN, b.WitS = s, s
+			out = append(out, a, b)
+		}
+		for _, st := range c20SizeStates(false) {
+			a, b := base, base
+			a.WitN, b.WitS = st, st
 			out = append(out, a, b)
 		}
 		sun := 7*c20Day + c20Hour
@@ -592,6 +688,11 @@ func c20BinStates(thorough bool) []c20BinState {
 		}
 	}
 	if thorough {
+		for _, st := range c20SizeStates(true) {
+			a, b := base, base
+			a.WitN, b.WitS = st, st
+			out = append(out, a, b)
+		}
 		// the full per-slot products through the binary as well
 		for _, j := range c20JSONs {
 			for _, c := range c20CPs {
@@ -939,6 +1040,12 @@ func c20Run(t *testing.T, rp *verifmc.Report) {
 			}
 		}
 	}
+	sizeStates := c20SizeStates(true)
+	for _, st := range sizeStates {
+		if mine() {
+			witStates = append(witStates, st)
+		}
+	}
 	for i := 0; i < len(witStates) && !rp.Expired() && rp.NViolations() < 20; i += 64 {
 		e.pkgWit(rp, witStates[i:min(i+64, len(witStates))])
 	}
@@ -965,5 +1072,5 @@ func c20Run(t *testing.T, rp *verifmc.Report) {
 	rp.Note("binary_states_total", fmt.Sprint(len(binStates)))
 
 	rp.Note("pkg_log_states_total", fmt.Sprint(len(c20JSONs)*len(c20CPs)*len(c20Finals)*len(c20PkgAges)*len(c20PkgLimits)))
-	rp.Note("pkg_witness_states_total", fmt.Sprint(len(c20WJSONs)*len(c20WCPs)*len(c20WJSONs)*len(c20MCPs)*len(c20Tiles)))
+	rp.Note("pkg_witness_states_total", fmt.Sprint(len(c20WJSONs)*len(c20WCPs)*len(c20WJSONs)*len(c20MCPs)*len(c20Tiles)+len(sizeStates)))
 }
